@@ -284,8 +284,22 @@ def run(ctx):
         if len(outer) == 1:
             oshape = outer[0].args[1]
             want_shape = op("seqcat", op("list", op("shape", A1)), sp.Tuple(op("len", DIR)))
-            alt = [want_shape, op("seqcat", op("shape", A1), sp.Tuple(op("len", DIR)))]
-            oks = any(T.equivalent(oshape, w) == T.Verdict.EQUAL for w in alt)
+
+            def segments(t):
+                """a sequence term as a flat list of ('one', element) / ('all', sequence) segments"""
+                f_ = fname(t)
+                if isinstance(t, sp.Tuple):
+                    out = []
+                    for a in t.args:
+                        out += [("all", a.args[0])] if fname(a) == "star" else [("one", a)]
+                    return out
+                if f_ == "seqcat":
+                    return segments(t.args[0]) + segments(t.args[1])
+                if f_ in ("list", "tuple") and len(t.args) == 1:
+                    return segments(t.args[0]) if isinstance(t.args[0], sp.Tuple) or fname(t.args[0]) in ("seqcat", "list", "tuple") \
+                        else [("all", t.args[0])]
+                return [("all", t)]
+            oks = segments(oshape) == [("all", op("shape", A1)), ("one", op("len", DIR))]
             ctx.expect(oks, "R05.3", f"estimate_directional_distribution[{meth}][output shape]",
                        "the result has the shape of the moments the caller passed in, plus one trailing direction axis "
                        "(callers multiply it with e[..., None] and label it with the input's dimensions)", fe.loc(),
